@@ -131,31 +131,56 @@ def run(ctx, rep):
             good = good and bool(eq)
         rep.check(good, 'R3', 'arity/' + phase, w(pf), '%sArgs::parse succeeds only for exactly %d arguments' % (phase, n),
                   '%sArgs::parse can succeed for an argument count other than %d' % (phase, n))
-    # every constant exit in libcnb_runtime is an error code; the only non-constant one is the phase result
+    # Every exit in libcnb_runtime either carries a constant error code or forwards the phase result.  The exit
+    # value is looked at per reaching definition (arm table), so `match r {Ok(c) => exit(c), Err(e) => {on_error(e);
+    # exit(1)}}` and `let code = match r {Ok(c) => c, Err(e) => {on_error(e); 1}}; exit(code)` are the same to the rule.
+    from .lib.tables import arm_defs, phi_local_of
     exits = exit_effects(prog, sl, rt)
-    nonconst = [(c, v) for c, v in exits if v[0] != 'const']
+    is_phase = lambda y: strip(y)[0] == 'call' and strip(y)[1] in (RD, RB)
+    rows = []          # (exit call, kind 'const'|'result'|'other', value, conds at the defining site)
     for c, v in exits:
-        if v[0] == 'const':
-            rep.check(bad_code(v), 'R4', 'runtime/exit-const/%s' % v[1], c.where(), 'error exit code %s' % v[1], 'constant exit code %s is 0 or 100 on an error arm' % v[1])
         rep.check(c.target is None, 'R4', 'runtime/exit-diverges/%s' % (v[1] if v[0] == 'const' else 'result'), c.where(), 'exit does not return', 'exit call has a successor')
-    rep.check(len(nonconst) == 1, 'R4', 'runtime/exit-result/count', w(rt), 'one exit(code) forwarding the phase result', '%d non-constant exits' % len(nonconst))
-    for c, v in nonconst:
-        ok = all(a[0] == 'unwrap' and all(strip(y)[0] == 'call' and strip(y)[1] in (RD, RB) for y in alts(a[1])) for a in alts(v))
-        conds = conditions(rt, c.bb, sl)
+        loc = phi_local_of(rt, c.args[0])
+        defs = arm_defs(rt, loc, sl) if loc is not None else [(c.bb, v, conditions(rt, c.bb, sl))]
+        for bi, dv, conds in defs:
+            conds = conds + [cd for cd in conditions(rt, c.bb, sl) if cd not in conds]
+            for a in alts(strip(dv)):
+                a = strip(a) if a[0] != 'unwrap' else a
+                if a[0] == 'const':
+                    rows.append((c, 'const', a, conds))
+                elif a[0] == 'unwrap' and all(is_phase(y) for y in alts(a[1])):
+                    rows.append((c, 'result', a, conds))
+                else:
+                    rows.append((c, 'other', a, conds))
+    for c, kind, a, conds in rows:
+        if kind == 'const':
+            rep.check(bad_code(a), 'R4', 'runtime/exit-const/%s' % a[1], c.where(), 'error exit code %s' % a[1], 'constant exit code %s is 0 or 100 on an error arm' % a[1])
+        elif kind == 'other':
+            rep.unproven('R4', 'runtime/exit-other', c.where(), 'exit code of unknown origin: %s' % vstr(a)[:100])
+    res_rows = [r for r in rows if r[1] == 'result']
+    rep.check(len({id(r[0]) for r in res_rows}) == 1, 'R4', 'runtime/exit-result/count', w(rt), 'one exit(code) forwarding the phase result', '%d exits forward a phase result' % len({id(r[0]) for r in res_rows}))
+    for c, kind, a, conds in res_rows[:1]:
         okc = any(cd.kind == 'variant' and cd.outcome == frozenset({'Ok'}) and cd.enum == 'std::result::Result' and
                   any(x[0] == 'call' and x[1] in (RD, RB) for x in walk(cd.subject)) for cd in conds)
-        rep.check(ok and okc, 'R4', 'runtime/exit-result', c.where(), 'Ok(code) => exit(code)', 'exit code is %s' % vstr(v)[:120])
+        rep.check(okc, 'R4', 'runtime/exit-result', c.where(), 'Ok(code) => exit(code)', 'the phase result is forwarded as exit code outside the Ok arm')
     oe = [c for c in rt.calls if c.decl == 'libcnb::buildpack::Buildpack::on_error']
     if len(oe) != 1:
         rep.violated('R4', 'runtime/on_error', w(rt), 'on_error is called from %d sites (expected exactly one)' % len(oe))
     else:
         c = oe[0]
         ev = strip(sl.operand(rt, c.args[1]))
-        ok = all(a[0] == 'unwrap_err' and all(strip(y)[0] == 'call' and strip(y)[1] in (RD, RB) for y in alts(a[1])) for a in alts(ev)) and not rt.in_loop(c.bb)
+        ok = all(a[0] == 'unwrap_err' and all(is_phase(y) for y in alts(a[1])) for a in alts(ev)) and not rt.in_loop(c.bb)
         conds = conditions(rt, c.bb, sl)
         okc = any(cd.kind == 'variant' and cd.outcome == frozenset({'Err'}) and any(x[0] == 'call' and x[1] in (RD, RB) for x in walk(cd.subject)) for cd in conds)
-        after = [x for x, v in exits if rt.dominates(c.bb, x.bb) and x.bb != c.bb]
-        rep.check(ok and okc and len(after) == 1 and bad_code(strip(sl.operand(rt, after[0].args[0]))), 'R4', 'runtime/on_error', c.where(),
+        # after on_error the process exits with an error code: every exit reachable from on_error gets, on the Err arm,
+        # a constant error code, and on_error cannot be bypassed on the way from the Err arm to that exit
+        reach = rt.reachable(c.bb)
+        after = [r for r in rows if r[0].bb in reach]
+        err_rows = [r for r in after if any(cd.kind == 'variant' and cd.outcome == frozenset({'Err'}) and any(x[0] == 'call' and x[1] in (RD, RB) for x in walk(cd.subject)) for cd in r[3])]
+        good_after = bool(err_rows) and all(r[1] == 'const' and bad_code(r[2]) for r in err_rows)
+        err_arm = [cd.target for cd in conds if cd.kind == 'variant' and cd.outcome == frozenset({'Err'})]
+        not_bypassed = bool(err_arm) and all(must_pass(rt, err_arm[-1], r[0].bb, c.bb) for r in err_rows)
+        rep.check(ok and okc and good_after and not_bypassed, 'R4', 'runtime/on_error', c.where(),
                   'Err(e) => on_error(e) once, then exit with an error code', 'error path does not call on_error(e) exactly once followed by a non-zero, non-100 exit')
     # ---- R5 --------------------------------------------------------------------------------------------
     want = {'GENERIC_SUCCESS': lambda v: v == 0, 'DETECT_DETECTION_PASSED': lambda v: v == 0, 'DETECT_DETECTION_FAILED': lambda v: v == 100}
